@@ -1045,6 +1045,37 @@ def _oracle_selftest() -> None:
     assert ref_bytes(["base32", "MFRGGZDFMY"], 0) == (b"abcdef", 2) and ref_bytes(["b64(YWJj)"], 0) == (b"abc", 1)
 
 
+def random_cfg_programs(seed: int, n: int) -> List[str]:
+    """random small control-flow graphs with joins, re-converging fall-through paths, loops and repeated short instruction
+    texts, so that occurrences of a pattern lie behind different routes (a successor already explored through one route,
+    another occurrence reachable only through a later successor)"""
+    import random as _r
+    rnd = _r.Random(seed * 7919 + 17)
+    out = []
+    for _ in range(n):
+        nb = rnd.randint(4, 9)
+        lines = ["#pragma version 8"]
+        for b in range(nb):
+            if b > 0:
+                lines.append(f"L{b}:")
+            k = rnd.randint(0, 3)
+            body = rnd.choice([[f"int {k}", "pop"], [f"int {k}", "pop", f"int {rnd.randint(0, 3)}", "pop"], ["txn Fee", "pop"], []])
+            lines += body
+            last = b == nb - 1
+            kind = rnd.choice(["fall", "b", "bz", "bnz", "bnz", "ret"]) if not last else rnd.choice(["ret", "b"])
+            tgt = rnd.randint(1, nb - 1)
+            if kind == "b":
+                lines.append(f"b L{tgt}")
+            elif kind in ("bz", "bnz"):
+                lines += ["txn NumAppArgs", f"{kind} L{tgt}"]
+            elif kind == "ret":
+                lines += [f"int {rnd.randint(0, 1)}", "return"]
+        if lines[-1] != "return" and not lines[-1].startswith("b "):
+            lines += ["int 0", "return"]
+        out.append("\n".join(lines) + "\n")
+    return out
+
+
 @standin("C20")
 def regex_engine(tier: str = "quick", seed: int = 0, known: Any = None) -> Dict[str, Any]:
     from bounded import gen
@@ -1054,6 +1085,7 @@ def regex_engine(tier: str = "quick", seed: int = 0, known: Any = None) -> Dict[
     limit, maxlen, cap = (400, 3, 60) if tier == "quick" else (10000, 4, 150)
     jobs = [(f"hand/{n}", s, maxlen, seed, 10 ** 6) for n, s in HAND_PROGRAMS]
     jobs += [(p["name"], p["src"], maxlen, seed, cap) for p in gen.programs(2, seed=seed, limit=limit)]
+    jobs += [(f"randcfg/{k}", s, maxlen, seed, cap) for k, s in enumerate(random_cfg_programs(seed, 2500 if tier == "quick" else 30000))]
     # a long straight-line contract: the engine is recursive
     long_src = "#pragma version 8\n" + "int 1\npop\n" * 700 + "int 7\nreturn\n"
     with mp.get_context("fork").Pool(16) as pool:
